@@ -602,3 +602,13 @@ mod tests {
         }
     }
 }
+
+#[cfg(test)]
+mod tests2 {
+    use super::*;
+    #[test]
+    fn osc8_then_number() {
+        let sc = decode(b"\x1b[38;5;28m\x1b]8;;file:///tmp/a\x1b\\ 460\x1b]8;;\x1b\\\x1b[34m|\x1b[0m\n");
+        assert_eq!(sc.rows[0].text(), " 460|");
+    }
+}
